@@ -212,6 +212,7 @@ func runC03Corpus(c *Ctx, phase string) {
 		c.Floor("valid_trees", 1000)
 		c.Floor("long_allowed_lists", 1000)
 		c.Floor("dictionary_pairs", 500)
+		c.Floor("near_miss_ids", 5000)
 	}
 	// (1) mutations of valid expressions
 	nValid := c.Pick(400, 6000)
@@ -414,6 +415,37 @@ func runC03Corpus(c *Ctx, phase string) {
 			doCall(c, CallCase{Fn: "ValidateLicenses", List: ev.QSs(allowed)})
 			c.Inc("long_allowed_lists")
 			c.Max("longest_allowed_list", int64(n))
+		}
+	}
+	// (8) near misses of every listed id (what people type: GPLv2, Apache2.0, BSD_3_Clause, a dropped or doubled character ...):
+	// unknown ids that resemble a listed one, which is where "did you mean" style code paths live
+	{
+		ids := append(append([]string{}, u.AllLicense...), u.Exceptions...)
+		for i, id := range ids {
+			if !c.Mine(i) {
+				continue
+			}
+			r := gen.NewRand(c.Seed, 0xC03A, uint64(i))
+			var near []string
+			if st, ver, suf, ok := gen.Stem(id); ok {
+				tail := ""
+				if suf != "" {
+					tail = "-" + suf
+				}
+				near = append(near, st+"v"+ver+tail, st+"-v"+ver+tail, st+ver+tail, st+"-V"+ver+tail, st+" "+ver+tail, st+"_"+ver+tail, strings.ToLower(st)+"v"+ver, st+"-"+ver+".0"+tail, st+"-"+strings.TrimSuffix(ver, ".0")+tail)
+			}
+			near = append(near, strings.ReplaceAll(id, "-", "_"), strings.ReplaceAll(id, "-", ""), strings.ReplaceAll(id, "-", " "), id+"-", id+".", "-"+id, id+id, id+"-"+id)
+			for k := 0; k < 3 && len(id) > 2; k++ {
+				p := r.Intn(len(id))
+				near = append(near, id[:p]+id[p+1:], id[:p]+id[p:p+1]+id[p:])
+				if p+1 < len(id) {
+					near = append(near, id[:p]+id[p+1:p+2]+id[p:p+1]+id[p+2:])
+				}
+			}
+			for _, s := range near {
+				c.hostileCalls(s, "")
+				c.Inc("near_miss_ids")
+			}
 		}
 	}
 	// (7) a dictionary taken from the string literals of the library's own source: keywords, prefixes and suffixes the code
